@@ -3,7 +3,7 @@
    msgs_of s c is the message record of connection c; all_recs h c m = the messages of selection groups 0..m-1, each stamped seq_in = its group
    number, in the order they were sent (seq_out = 0,1,2,... without gap or repeat: AsyncLaws3).  *)
 From Coq Require Import List Arith ZArith Bool Sorted.
-From Rex Require Import KahnL AsyncModel2 AsyncStable ConflInv RexDet AsyncLaws AsyncLaws2 AsyncLaws3 AsyncLaws4 AsyncLaws5 AsyncLaws6 Consume BlockCount WindowPush.
+From Rex Require Import KahnL AsyncModel2 AsyncStable ConflInv RexDet AsyncLaws AsyncLaws2 AsyncLaws3 AsyncLaws4 AsyncLaws5 AsyncLaws6 Consume BlockCount BlockCount2 WindowPush.
 Open Scope Z_scope.
 
 (* the record of a connection is exactly the concatenation of its selection groups: every message once, in order, seq_in = the step (group) that consumed it *)
@@ -55,4 +55,24 @@ Print Assumptions C03_window_is_lastn.
 Theorem C03_push_truncated : forall (X : Type) (w g : list X), push_all w (CompiledModel.lastn (length w) g) = push_all w g.
 Proof. exact @push_truncated. Qed.
 Print Assumptions C03_push_truncated.
+
+(* skipped blocking connections: receiver step N > 0 takes the sender ticks scheduled in [sched(N-1), sched(N)) *)
+Theorem C03_blocking_count_skip : forall P phm t_low t_high : Z, 0 < P -> t_low <= t_high -> forall fuel : nat, let i0 := (t_low - phm) / P in let jm := (t_high - phm) / P in jm + 1 - i0 < Z.of_nat fuel -> Z.of_nat (cnt_loop fuel i0 P phm t_low t_high false true 0) = cum_lt P phm t_high - cum_lt P phm t_low.
+Proof. exact @blocking_count_skip. Qed.
+Print Assumptions C03_blocking_count_skip.
+
+(* first receiver step (N = 0), non-skip: every sender tick scheduled at or before sched(0) *)
+Theorem C03_blocking_count_first_nonskip : forall P phm t_low t_high : Z, 0 < P -> t_low <= t_high -> forall fuel : nat, let jm := (t_high - phm) / P in -1 <= jm -> jm + 1 < Z.of_nat fuel -> Z.of_nat (cnt_loop fuel 0 P phm t_low t_high true false 0) = cum_le P phm t_high.
+Proof. exact @blocking_count_first_nonskip. Qed.
+Print Assumptions C03_blocking_count_first_nonskip.
+
+(* first receiver step (N = 0), skip: every sender tick scheduled strictly before sched(0) *)
+Theorem C03_blocking_count_first_skip : forall P phm t_low t_high : Z, 0 < P -> t_low <= t_high -> forall fuel : nat, let jm := (t_high - phm) / P in -1 <= jm -> jm + 1 < Z.of_nat fuel -> Z.of_nat (cnt_loop fuel 0 P phm t_low t_high true true 0) = cum_lt P phm t_high.
+Proof. exact @blocking_count_first_skip. Qed.
+Print Assumptions C03_blocking_count_first_skip.
+
+(* the count the model's blocking expectation computes (with its own fuel expression), for every receiver step, skip flag and phases: the phase-determined step *)
+Theorem C03_blk_cnt_closed_form : forall (G : cfg) (c N : nat), let nn := node G (c_in (conn G c)) in let nm := node G (c_out (conn G c)) in 0 < n_period nn -> 0 < n_period nm -> let sched := fun k : Z => n_period nn * k + n_phase nn in let P := n_period nm in let phm := n_phase nm in Z.of_nat (blk_cnt G c N) = (if (N =? 0)%nat then if c_skip (conn G c) then cum_lt P phm (sched 0) else cum_le P phm (sched 0) else if c_skip (conn G c) then cum_lt P phm (sched (Z.of_nat N)) - cum_lt P phm (sched (Z.of_nat N - 1)) else cum_le P phm (sched (Z.of_nat N)) - cum_le P phm (sched (Z.of_nat N - 1))).
+Proof. exact @blk_cnt_closed_form. Qed.
+Print Assumptions C03_blk_cnt_closed_form.
 
